@@ -57,23 +57,44 @@ fn gen_body(rng: &mut Rng, instrs: &[String], depth: u32, in_proc: bool) -> Stri
     parts.join(" ")
 }
 
+/// `use` lines of every shape the parser accepts: none, plain, aliased (`->name`), several modules
+/// with the same last path component told apart by an alias, unused imports, modules no library
+/// provides. `u64` stays bound to std::math::u64 whenever the first element is true.
+pub fn gen_imports(rng: &mut Rng) -> (bool, String) {
+    match rng.below(8) {
+        0 => (false, String::new()),
+        1 => (true, "use.std::math::u64\nuse.std::crypto::hashes::native\n".into()),
+        2 => (true, "use.std::math::u64\nuse.std::math::u256->big\n".into()),
+        3 => (true, "use.std::math::u64\nuse.dummy::math::u64->other\n".into()),
+        4 => (true, "use.std::math::u256->zz\nuse.std::math::u64\nuse.other::lib::u256\n".into()),
+        5 => (false, "use.std::math::u64->bigint\nuse.std::sys->u64x\n".into()),
+        6 => (true, "use.aaa::u64->m1\nuse.zzz::u64->m0\nuse.std::math::u64\n".into()),
+        _ => (false, "use.std::crypto::hashes::native->u64\n".into()),
+    }
+}
+
 pub fn gen_program_source(rng: &mut Rng, instrs: &[String]) -> String {
     let mut s = String::new();
-    if rng.chance(1, 2) {
-        s.push_str("use.std::math::u64\nuse.std::crypto::hashes::native\n");
-    }
+    let (has_u64, uses) = gen_imports(rng);
+    s.push_str(&uses);
+    let _ = has_u64;
     s.push_str(&format!("#! docs of lp\nproc.lp.2\n {}\nend\n", gen_body(rng, instrs, 1, true).replace("exec.lp", "push.1").replace("call.lp", "push.2").replace("procref.lp", "push.3")));
     if rng.chance(1, 2) {
         s.push_str("proc.other exec.lp exec.u64_placeholder end\n");
     }
-    s = s.replace("exec.u64_placeholder", if s.contains("use.std::math::u64") { "exec.u64::wrapping_add" } else { "push.9" });
+    s = s.replace("exec.u64_placeholder", if has_u64 { "exec.u64::wrapping_add" } else if uses.contains("->bigint") { "exec.bigint::wrapping_add" } else { "push.9" });
     s.push_str(&format!("begin\n {}\nend", gen_body(rng, instrs, 3, false)));
     s
 }
 
 pub fn gen_module_source(rng: &mut Rng, instrs: &[String]) -> String {
     let mut s = String::from("#! module docs\n#! second line\n\n");
-    s.push_str("use.std::math::u64\nuse.std::sys\n");
+    match rng.below(4) {
+        0 => s.push_str("use.std::math::u64\nuse.std::sys\n"),
+        1 => s.push_str("use.std::math::u64\nuse.std::sys\nuse.dummy::math::u64->other\n"),
+        2 => s.push_str("use.std::sys\nuse.std::math::u256->big\nuse.std::math::u64\n"),
+        _ => s.push_str("use.aaa::sys->m1\nuse.std::math::u64\nuse.std::sys\nuse.zzz::u64->m0\n"),
+    }
     s.push_str(&format!("proc.lp.3\n {}\nend\n", gen_body(rng, instrs, 1, true).replace("exec.lp", "push.1").replace("call.lp", "push.2").replace("procref.lp", "push.3")));
     s.push_str(&format!("#! exported one\nexport.e1.1\n {}\nend\n", gen_body(rng, instrs, 2, true)));
     s.push_str("export.u64::wrapping_add->my_add\nexport.sys::truncate_stack\n");
@@ -130,7 +151,7 @@ pub fn generate_c10(em: &mut Emitter, seed: u64, thorough: bool) {
             };
             norm(&mut a2);
             norm(&mut b2);
-            if a2 != b2 || back.to_bytes(AstSerdeOptions::new(imports)) != bytes {
+            if a2 != b2 || back.to_bytes(AstSerdeOptions::new(imports)) != bytes || expect.import_info() != back.import_info() {
                 em.oracle_failures.push(format!("C10 ProgramAst changed by the round trip (imports={}) :: `{}`", imports, &src[..src.len().min(300)]));
                 continue;
             }
@@ -345,12 +366,13 @@ pub fn generate_c10(em: &mut Emitter, seed: u64, thorough: bool) {
 // C19
 // ================================================================================================
 
-fn try_decoder<T, F: Fn(&[u8]) -> Result<T, String>, G: Fn(&T) -> Vec<u8>>(
+fn try_decoder<T, F: Fn(&[u8]) -> Result<T, String>, G: Fn(&T) -> Vec<u8>, E: Fn(&T, &T) -> bool>(
     em: &mut Emitter,
     name: &str,
     bytes: &[u8],
     dec: F,
     enc: G,
+    same: E,
     counters: &mut [u64; 3],
 ) {
     match catch_unwind(AssertUnwindSafe(|| dec(bytes))) {
@@ -371,6 +393,9 @@ fn try_decoder<T, F: Fn(&[u8]) -> Result<T, String>, G: Fn(&T) -> Vec<u8>>(
             };
             match catch_unwind(AssertUnwindSafe(|| dec(&re))) {
                 Ok(Ok(v2)) => {
+                    if !same(&v, &v2) {
+                        em.oracle_failures.push(format!("C19 {}: accepted value re-encodes to bytes which decode to a different value, input {}", name, hex(&bytes[..bytes.len().min(4096)])));
+                    }
                     if enc(&v2) != re {
                         em.oracle_failures.push(format!("C19 {}: accepted value does not re-encode stably, input {}", name, hex(&bytes[..bytes.len().min(48)])));
                     }
@@ -469,19 +494,19 @@ pub fn generate_c19(em: &mut Emitter, seed: u64, thorough: bool) {
             }
         };
         let b = pick(&mut rng, &prog_seeds);
-        try_decoder(em, "ProgramAst", &b, |x| ProgramAst::from_bytes(x).map_err(|e| format!("{:?}", e)), |a| a.to_bytes(AstSerdeOptions::new(true)), counters.entry("ProgramAst").or_default());
+        try_decoder(em, "ProgramAst", &b, |x| ProgramAst::from_bytes(x).map_err(|e| format!("{:?}", e)), |a| a.to_bytes(AstSerdeOptions::new(true)), |a, b| a == b, counters.entry("ProgramAst").or_default());
         let b = pick(&mut rng, &mod_seeds);
-        try_decoder(em, "ModuleAst", &b, |x| ModuleAst::from_bytes(x).map_err(|e| format!("{:?}", e)), |a| a.to_bytes(AstSerdeOptions::new(true)), counters.entry("ModuleAst").or_default());
+        try_decoder(em, "ModuleAst", &b, |x| ModuleAst::from_bytes(x).map_err(|e| format!("{:?}", e)), |a| a.to_bytes(AstSerdeOptions::new(true)), |a, b| a == b, counters.entry("ModuleAst").or_default());
         if i % 4 == 0 {
             let b = pick(&mut rng, &vec![masl_seed.clone()]);
-            try_decoder(em, "MaslLibrary", &b, |x| MaslLibrary::read_from_bytes(x).map_err(|e| format!("{:?}", e)), |a| a.to_bytes(), counters.entry("MaslLibrary").or_default());
+            try_decoder(em, "MaslLibrary", &b, |x| MaslLibrary::read_from_bytes(x).map_err(|e| format!("{:?}", e)), |a| a.to_bytes(), |a, b| a == b, counters.entry("MaslLibrary").or_default());
         }
         let b = pick(&mut rng, &vec![info_seed.0.clone()]);
-        try_decoder(em, "ProgramInfo", &b, |x| ProgramInfo::read_from_bytes(x).map_err(|e| format!("{:?}", e)), |a| a.to_bytes(), counters.entry("ProgramInfo").or_default());
+        try_decoder(em, "ProgramInfo", &b, |x| ProgramInfo::read_from_bytes(x).map_err(|e| format!("{:?}", e)), |a| a.to_bytes(), |a, b| a.program_hash() == b.program_hash() && a.kernel_procedures() == b.kernel_procedures(), counters.entry("ProgramInfo").or_default());
         let b = pick(&mut rng, &vec![info_seed.1.clone()]);
-        try_decoder(em, "Kernel", &b, |x| Kernel::read_from_bytes(x).map_err(|e| format!("{:?}", e)), |a| a.to_bytes(), counters.entry("Kernel").or_default());
+        try_decoder(em, "Kernel", &b, |x| Kernel::read_from_bytes(x).map_err(|e| format!("{:?}", e)), |a| a.to_bytes(), |a, b| a.proc_hashes() == b.proc_hashes(), counters.entry("Kernel").or_default());
         let b = pick(&mut rng, &vec![si_seed.clone()]);
-        try_decoder(em, "StackInputs", &b, |x| StackInputs::read_from_bytes(x).map_err(|e| format!("{:?}", e)), |a| a.to_bytes(), counters.entry("StackInputs").or_default());
+        try_decoder(em, "StackInputs", &b, |x| StackInputs::read_from_bytes(x).map_err(|e| format!("{:?}", e)), |a| a.to_bytes(), |a, b| a.values() == b.values(), counters.entry("StackInputs").or_default());
         // the Lean decoder must agree on accept/reject and on the value
         let ans = match StackInputs::read_from_bytes(&b) {
             Ok(v) => format!("ok {}", if v.values().is_empty() { "-".to_string() } else { join_u64(v.values().iter().map(|f| vm_core::StarkField::as_int(f))) }),
@@ -489,7 +514,7 @@ pub fn generate_c19(em: &mut Emitter, seed: u64, thorough: bool) {
         };
         em.emit(format!("dec stackinputs {}", if b.is_empty() { "-".to_string() } else { hex(&b) }), ans);
         let b = pick(&mut rng, &vec![so_seed.clone()]);
-        try_decoder(em, "StackOutputs", &b, |x| StackOutputs::read_from_bytes(x).map_err(|e| format!("{:?}", e)), |a| a.to_bytes(), counters.entry("StackOutputs").or_default());
+        try_decoder(em, "StackOutputs", &b, |x| StackOutputs::read_from_bytes(x).map_err(|e| format!("{:?}", e)), |a| a.to_bytes(), |a, b| a == b, counters.entry("StackOutputs").or_default());
         let ans = match StackOutputs::read_from_bytes(&b) {
             Ok(v) => format!("ok {} {}", join_u64(v.stack().iter().copied()), if v.overflow_addrs().is_empty() { "-".to_string() } else { join_u64(v.overflow_addrs().iter().copied()) }),
             Err(_) => "reject".to_string(),
@@ -504,7 +529,7 @@ pub fn generate_c19(em: &mut Emitter, seed: u64, thorough: bool) {
                 1 => b.truncate(k),
                 _ => b[0] = rng.below(6) as u8,
             }
-            try_decoder(em, "ExecutionProof", &b, |x| air::ExecutionProof::from_bytes(x).map_err(|e| format!("{:?}", e)), |a| a.to_bytes(), counters.entry("ExecutionProof").or_default());
+            try_decoder(em, "ExecutionProof", &b, |x| air::ExecutionProof::from_bytes(x).map_err(|e| format!("{:?}", e)), |a| a.to_bytes(), |a, b| a.to_bytes() == b.to_bytes(), counters.entry("ExecutionProof").or_default());
         }
     }
     for (k, c) in counters {
